@@ -248,10 +248,10 @@ static void DoAck(const Case& c, char via, int sticky, int notify, int persisten
 		if (expiry != 0)
 			params->Set("expiry", (double)absExpiry);
 		if (via == 'h') {
-			acc = HttpAction(c, "acknowledge-problem", params) == 200 ? 1 : 0;
+			acc = HttpAction(c, "acknowledge-problem", params) / 100 == 2 ? 1 : 0; /* any 2xx = accepted */
 		} else {
 			Dictionary::Ptr r = ApiAction::GetByName("acknowledge-problem")->Invoke(c.obj, params);
-			acc = ((int)(double)r->Get("code") == 200) ? 1 : 0;
+			acc = ((int)(double)r->Get("code") / 100 == 2) ? 1 : 0; /* any 2xx = accepted, as ActionsHandler classes it */
 		}
 	} else if (via == 'e' || via == 'x') {
 		std::ostringstream line;
@@ -265,7 +265,8 @@ static void DoAck(const Case& c, char via, int sticky, int notify, int persisten
 		try {
 			ExternalCommandProcessor::Execute(line.str());
 			acc = 1;
-		} catch (const std::invalid_argument&) {
+		} catch (const std::exception&) {
+			/* refused — whatever the exception's type or wording (callers catch std::exception) */
 			acc = 0;
 		}
 	} else if (via == 'c') {
